@@ -20,7 +20,7 @@ ASSUMPTIONS = ["failure location is taken from the reference interpreter; canari
 SHARD_TIMEOUT = {"quick": 900, "thorough": 5400}
 
 KINDS = ["raises", "unknown", "convert_int", "convert_float", "too_few", "too_many", "abs_link", "abs_link_deep",
-         "rel_link", "missing_resource", "link_missing_resource"]
+         "rel_link", "missing_resource", "link_missing_resource", "sub_fails", "fails_beside_good_link", "two_links"]
 
 
 def shards(tier, seed):
@@ -48,6 +48,16 @@ def failing_action(rnd, kind, has_prefix):
         return rnd.choice(["cat-~X~/lit-a/cat-~X~/one/boom/after3~E~E", "cat-~X~/one/cat-q-~X~/lit-b/cat-~X~/needs~E~E~E"])
     if kind == "rel_link":
         return rnd.choice(["cat-~X~boom~E", "add-~X~add-x~E", "cat-p-~X~ident/nosuchcmd/after3~E"])
+    if kind == "sub_fails":
+        # the command itself evaluates a failing sub-query (the library's own exception type travels through it)
+        return rnd.choice(["sub-one~Iboom", "sub-nosuchcmd", "sub-one~Iadd~_x~Iafter3"])
+    if kind == "fails_beside_good_link":
+        # the failing action also has a link argument that evaluates fine
+        return rnd.choice(["add-~X~/one~E-3", "flagged-~X~/one~E-s-surplus1-surplus2", "add-~X~/lit-a~E", "needs2-~X~/one~E",
+                           "mulf-~X~/lit-q/cat-r~E"])
+    if kind == "two_links":
+        # a failing link followed by another link argument of the same action (which stands to its right)
+        return rnd.choice(["cat-~X~/one/boom~E-~X~/one/after3~E", "cat-a-~X~/nosuchcmd~E-b-~X~/lit-z/after3~E"])
     if kind == "link_missing_resource":
         return rnd.choice(["cat-~X~/-R/no/such/key.txt~E", "cat-~X~/-R/nokey.bin/-/ident~E"])
     raise ValueError(kind)
@@ -132,6 +142,16 @@ def candidates_for(text, query, path, base=0):
     C = query.encode()
     Cp = lead + head + "/".join(canon_actions[: i + 1])
     texts_typed = [(text, 0), (text[:e_i], 0)]
+    if len(path) > 2 and path[1][0] == "sub":
+        # failure inside a query the command evaluated itself: naming that query's own failing step is correct too
+        from liquer.parser import parse
+
+        try:
+            sq = path[1][1]
+            for (t, o) in candidates_for(sq, parse(sq), list(path[2:])):
+                out.add((t, o))
+        except Exception:
+            pass
     if len(path) == 1 or path[1][0] != "arg" or not isinstance(actions[i].parameters[path[1][1]], LinkActionParameter):
         for t, _ in texts_typed:
             out.add((t, s_i))
